@@ -1,7 +1,7 @@
 (* Property C18 - ExactEquals is structural identity; IgnoreOrder ignores only member/vertex
    order.  Statements only; proofs are in Proofs/ExactEq_proofs.v.
-   Model: Model/ExactEq.v (transcription of geom/alg_exact_equals.go after the repairs F11 and
-   F50).  [exact_equals simple tol io g h] is ExactEquals(g, h, ToleranceXY(tol), IgnoreOrder?)
+   Model: Model/ExactEq.v (transcription of geom/alg_exact_equals.go after the repairs F11, F50
+   and F52).  [exact_equals simple tol io g h] is ExactEquals(g, h, ToleranceXY(tol), IgnoreOrder?)
    on IEEE-754 bit patterns; [simple] is LineString.IsSimple (an oracle: it belongs to C03). *)
 From Coq Require Import NArith List Bool Permutation.
 From SF Require Import Base.GeomAST Model.WKB Model.ExactEq Proofs.ExactEq_proofs Proofs.ExactEq_complete.
@@ -257,6 +257,22 @@ Proof. vm_compute. auto. Qed.
 Example ex_tol_decoded : exists t1 t2, ext_of_bits half = EFin t1 /\ ext_of_bits one = EFin t2
                                       /\ QArith_base.Qle (QArith_base.Qmult t1 t1) (QArith_base.Qmult t2 t2).
 Proof. eexists; eexists; split; [vm_compute; reflexivity | split; [vm_compute; reflexivity | vm_compute; discriminate]]. Qed.
+(* F52: the tolerance test is about the distances themselves, also where their squares are not
+   representable in float64 (the model's arithmetic is exact): points 1e200 apart are not within
+   1e160 (before the repair both squares overflowed and the code answered true); points 1e-200 apart
+   are within 1e-180 (the squared tolerance underflowed to 0 and the code compared exactly), and
+   points 1e-180 apart are not within 1e-200 *)
+Definition f_1e200 : N := 7598952565167317594.
+Definition f_1e160 : N := 7000496887210966211.
+Definition f_1em200 : N := 1614679632300144556.
+Definition f_1em180 : N := 1914198181197535432.
+Definition px (x : N) : geom := GPoint (MkPoint XY (Some (Build_vtx x 0 0 0))).
+Example ex_tol_extreme :
+     exact_equals (fun _ => true) f_1e160 false p00 (px f_1e200) = false
+  /\ exact_equals (fun _ => true) f_1e200 false p00 (px f_1e160) = true
+  /\ exact_equals (fun _ => true) f_1em180 false p00 (px f_1em200) = true
+  /\ exact_equals (fun _ => true) f_1em200 false p00 (px f_1em180) = false.
+Proof. vm_compute. auto. Qed.
 (* a member comparison that is not transitive: the matcher has to backtrack (a greedy one fails) *)
 Example ex_backtrack :
   valid_permutation (fun a b : nat => Nat.leb (a - b) 1 && Nat.leb (b - a) 1) [1; 3]%nat [2; 0]%nat = true.
